@@ -1,10 +1,11 @@
 #!/usr/bin/env python3
-"""usage: lib/keep_seed.py <PID> <A|B> <detected: yes|no|partial> <note>
+"""usage: lib/keep_seed.py <PID> <A|B> <detected: yes|no|partial> <note> [<label>]
 Copies a confirmed seeded change from /tmp/seed/<PID>-out/<V> into /verif/seeded/<PID>-<V>/."""
 import json, os, shutil, subprocess, sys
 pid, v, detected, note = sys.argv[1:5]
+label = sys.argv[5] if len(sys.argv) > 5 else v  # directory suffix when A/B are taken by an earlier round
 src = "/tmp/seed/%s-out/%s" % (pid, v)
-dst = "/verif/seeded/%s-%s" % (pid, v)
+dst = "/verif/seeded/%s-%s" % (pid, label)
 if os.path.exists(dst):
     shutil.rmtree(dst)
 os.makedirs(dst)
@@ -15,7 +16,7 @@ confirm = subprocess.run(["/verif/lib/confirm_seed.sh", pid, v], stdout=subproce
 meta["breaks_property"] = pid
 meta["confirmed_by_me"] = confirm.strip().splitlines()
 meta["check_result"] = {"detected": detected, "note": note,
-                        "how_run": "git -C /repo apply seeded/%s-%s/patch.diff; ./check %s --tier quick; git -C /repo checkout -- ." % (pid, v, pid)}
+                        "how_run": "git -C /repo apply seeded/%s-%s/patch.diff; ./check %s --tier quick; git -C /repo checkout -- ." % (pid, label, pid)}
 meta["origin"] = "independent sub-agent given only the property text and a scratch worktree (/tmp/seed/%s); demo paths refer to that worktree" % pid
 json.dump(meta, open(dst + "/meta.json", "w"), indent=1)
 print("kept", dst)
